@@ -91,6 +91,11 @@ pub fn res_ok(m: &mut Map<String, Value>, out: &[u8]) {
 }
 
 pub fn res_err(m: &mut Map<String, Value>, e: &SignatureError) {
+    // error_code / http_status / Display are code under test too
+    let probe = guarded(|| (ServiceError::error_code(e).to_string(), ServiceError::http_status(e).as_u16(), e.to_string()));
+    if let Err(p) = probe {
+        return res_other(m, "panic", &p);
+    }
     m.insert("res".into(), json!("err"));
     m.insert("out".into(), json!([]));
     m.insert("kind".into(), json!(kind_of(e)));
